@@ -372,6 +372,25 @@ pub fn gen_print_history(rng: &mut Rng, avoid: &Avoid) -> History {
                 expr: Expr::LenOf("abc".into()),
             }));
         }
+        let deeper = rng.chance(1, 2);
+        if deeper {
+            // one level further down (a SUB that prints, or does not), then another
+            // PRINT of the function: the outer statement still has to finish on its
+            // own device and in its own format
+            body.push(ids.st(StmtKind::CallSub {
+                name: "SP2".into(),
+                args: vec![Expr::Int(1)],
+            }));
+            if rng.chance(2, 3) {
+                let mut c = 0usize;
+                let items = rand_items(rng, &mut c, false, None);
+                body.push(ids.st(StmtKind::Print {
+                    dev: Dev::Lpt1,
+                    items,
+                    using: None,
+                }));
+            }
+        }
         body.push(ids.st(StmtKind::Assign {
             var: "FP1%".into(),
             expr: Expr::Add(Box::new(Expr::Var("P1%".into())), Box::new(Expr::Int(1))),
@@ -383,6 +402,30 @@ pub fn gen_print_history(rng: &mut Rng, avoid: &Avoid) -> History {
             body,
             is_static: false,
         });
+        if deeper {
+            let mut body = vec![];
+            if rng.chance(1, 2) {
+                let mut c = 0usize;
+                let items = rand_items(rng, &mut c, false, None);
+                body.push(ids.st(StmtKind::Print {
+                    dev: Dev::Lpt1,
+                    items,
+                    using: None,
+                }));
+            } else {
+                body.push(ids.st(StmtKind::Assign {
+                    var: "L1%".into(),
+                    expr: Expr::Var("P1%".into()),
+                }));
+            }
+            procs.push(Proc {
+                name: "SP2".into(),
+                is_function: false,
+                params: vec!["P1%".into()],
+                body,
+                is_static: false,
+            });
+        }
     }
     History {
         programs: vec![Scenario {
@@ -414,7 +457,13 @@ fn rand_text_file(rng: &mut Rng) -> Vec<u8> {
                 out.push(b' ');
             }
             match rng.below(5) {
-                0 => out.extend_from_slice(format!("{}", rng.range(-99, 999)).as_bytes()),
+                0 => {
+                    if rng.chance(1, 4) {
+                        out.extend_from_slice(rng.pick(&["16777217", "123456789", "-16777219", "70001"]).as_bytes())
+                    } else {
+                        out.extend_from_slice(format!("{}", rng.range(-99, 999)).as_bytes())
+                    }
+                }
                 1 => {}
                 4 if rng.chance(1, 3) => {
                     // a long field: line ends land on every offset modulo the sizes of
@@ -476,6 +525,8 @@ fn trace_vars(ids: &mut Ids) -> Stmt {
             PItem::E(Expr::Str("V".into())),
             PItem::Semi,
             PItem::E(Expr::Var("I1%".into())),
+            PItem::Semi,
+            PItem::E(Expr::Var("L1&".into())),
             PItem::Semi,
             PItem::E(Expr::Str("[".into())),
             PItem::Semi,
@@ -621,9 +672,17 @@ fn gen_roundtrip_program(rng: &mut Rng, exists: &mut BTreeSet<String>) -> Scenar
                 items.push(PItem::E(Expr::Str(",".into())));
                 items.push(PItem::Semi);
             }
-            match rng.below(4) {
+            match rng.below(6) {
                 0 => items.push(PItem::E(Expr::Int(rng.range(-999, 999) as i32))),
                 1 => items.push(PItem::E(Expr::Str("z".repeat(rng.range(1, 70) as usize)))),
+                // whole numbers no SINGLE can hold exactly
+                4 => items.push(PItem::E(Expr::Int(*rng.pick(&[
+                    16777217, 123456789, -16777219, 2147483647, 70001, 33554433,
+                ])))),
+                // text beyond ASCII
+                5 => items.push(PItem::E(Expr::Str(
+                    rng.pick(&["h\u{e9}llo", "\u{c8}", "na\u{ef}ve \u{fc}", "\u{cd}\u{cd}\u{cd}", "a\u{df}"]).to_string(),
+                ))),
                 _ => items.push(PItem::E(Expr::Str(
                     rng.pick(&["ab", "Hello", "q", "Z9", "x y", "end"]).to_string(),
                 ))),
@@ -670,8 +729,13 @@ fn gen_roundtrip_program(rng: &mut Rng, exists: &mut BTreeSet<String>) -> Scenar
         1 => {
             // field by field, as written (only the lines written by this program when the
             // file was created here)
+            let long_first = rng.chance(1, 3);
             for nf in &shapes {
-                let vars: Vec<String> = ["S1$", "S2$", "S3$"].iter().take(*nf).map(|s| s.to_string()).collect();
+                let mut vars: Vec<String> = ["S1$", "S2$", "S3$"].iter().take(*nf).map(|s| s.to_string()).collect();
+                if long_first {
+                    // defined when the field is a whole number in LONG range
+                    vars[0] = "L1&".into();
+                }
                 main.push(ids.st(StmtKind::InputFile { handle: hr, vars }));
                 main.push(trace_vars(&mut ids));
             }
@@ -847,7 +911,7 @@ fn gen_file_program(rng: &mut Rng, exists: &mut BTreeSet<String>) -> Scenario {
                     // a numeric target (defined when the field is a decimal INTEGER)
                     main.push(ids.st(StmtKind::InputFile {
                         handle,
-                        vars: vec!["I1%".into()],
+                        vars: vec![rng.pick(&["I1%", "L1&"]).to_string()],
                     }));
                 } else if rng.chance(1, 2) {
                     main.push(ids.st(StmtKind::LineInputFile {
